@@ -729,11 +729,11 @@ impl Store {
         let dividers = self.dividers();
         let ixs = if query.words.len() > 0 { self.index.prepare(&query, self.limit) } else { self.top_ixs() };
         let mut __items0: Vec<Hit<'a>> = Vec::new();
-        let mut __i0 = 0;
-        while __i0 < ixs.len()
+        let mut __p0 = 0;
+        while __p0 < ixs.len()
         {
-            let __ix = __i0;
-            __i0 += 1;
+            let __ix = __p0;
+            __p0 += 1;
             let ix = ixs[__ix];
             let __cur = { Hit::from_record(&self.records[ix]) };
             let mut hit = __cur;
@@ -754,11 +754,11 @@ impl Store {
         }
         let __sel0 = limit_sort_all(__items0, self.limit, compare_hits);
         let mut __out0: Vec<SearchResult> = Vec::new();
-        let mut __j0 = 0;
-        while __j0 < __sel0.len()
+        let mut __q0 = 0;
+        while __q0 < __sel0.len()
         {
-            let __jx = __j0;
-            __j0 += 1;
+            let __jx = __q0;
+            __q0 += 1;
             let hit = &__sel0[__jx];
             let __cur = { SearchResult { id: hit.id, title: highlight(&hit, dividers) } };
             __out0.push(__cur);
